@@ -289,10 +289,28 @@ void ezc3d::c3d::parameter(const std::string &groupName, const ezc3d::Parameters
         idx = parameters().groupIdx(groupName);
     }
 
-    _parameters->group_nonConst(idx).parameter(p);
+    // Keep the parameter that is about to be replaced, so the edit can be undone if the header cannot follow it
+    ezc3d::ParametersNS::GroupNS::Group& grp(_parameters->group_nonConst(idx));
+    bool isReplaced(false);
+    ezc3d::ParametersNS::GroupNS::Parameter previous;
+    try {
+        previous = grp.parameter(p.name());
+        isReplaced = true;
+    } catch (std::invalid_argument) {
+    }
+    ezc3d::Header previousHeader(header());
+    grp.parameter(p);
 
     // Do a sanity check on the header if important stuff like number of frames or number of elements is changed
-    updateHeader();
+    try {
+        updateHeader();
+    } catch (...) {
+        // A mandatory parameter of the wrong type or without value: the call is refused as a whole
+        if (isReplaced)
+            grp.parameter(previous);
+        *_header = previousHeader;
+        throw;
+    }
 }
 
 void ezc3d::c3d::lockGroup(const std::string &groupName)
